@@ -446,6 +446,36 @@ def fam_sliding_window(case):
 FAMILIES["sliding_window"] = fam_sliding_window
 
 
+def fam_combine_params(case):
+    """_combine_params on concrete scalars: the postconditions of unit regressors._combine_params.<prior>, evaluated in float64"""
+    from skactiveml.regressor._nic_kernel_regressor import _combine_params
+    v = {k: np.float64(x) for k, x in case["values"].items()}
+    k, n, m, s2 = _combine_params((v["kappa_1"], v["nu_1"], v["mu_1"], v["sigma_sq_1"]), (v["kappa_2"], v["nu_2"], v["mu_2"], v["sigma_sq_2"]))
+    tol = 1e-9 * (1 + max(abs(float(x)) for x in v.values()))
+    bad = []
+    if not all(np.isfinite(x) for x in (k, n, m, s2)):
+        bad.append(f"not all finite: {(k, n, m, s2)}")
+    else:
+        if abs(k - (v["kappa_1"] + v["kappa_2"])) > tol or k <= 0:
+            bad.append(f"kappa_post {k}")
+        if abs(n - (v["nu_1"] + v["nu_2"])) > tol or n <= 0:
+            bad.append(f"nu_post {n}")
+        if s2 <= 0:
+            bad.append(f"sigma_sq_post {s2} is not positive")
+        if case["prior"] == "nadaraya_watson" and (n <= 2 or abs(m - v["mu_2"]) > tol):
+            bad.append(f"nu_post {n}, mu_post {m} (kernel-weighted mean {v['mu_2']})")
+        if case["prior"] == "proper" and not (min(v["mu_1"], v["mu_2"]) - tol <= m <= max(v["mu_1"], v["mu_2"]) + tol):
+            bad.append(f"mu_post {m} outside [{min(v['mu_1'], v['mu_2'])}, {max(v['mu_1'], v['mu_2'])}]")
+        if case["prior"] == "neutral" and max(abs(k - v["kappa_1"]), abs(n - v["nu_1"]), abs(m - v["mu_1"]), abs(s2 - v["sigma_sq_1"])) > tol:
+            bad.append(f"posterior {(k, n, m, s2)} differs from the prior without labels")
+        if k > 0 and not ((1 + k) / k * s2 > 0):
+            bad.append("predictive scale^2 is not positive")
+    return [{"sig": case["sig"], "detail": f"_combine_params with {case['values']}: " + "; ".join(bad)}] if bad else []
+
+
+FAMILIES["combine_params"] = fam_combine_params
+
+
 def run_case(prop, case):
     with np.errstate(all="ignore"):
         try:
